@@ -49,6 +49,26 @@ class Runner:
             self.fns[key] = f
         return f
 
+    def under(self, pid):
+        """the function a closure program wraps"""
+        key = "under:" + pid
+        if key not in self.progs:
+            self.progs[key] = gb.build(self.cat[pid]["p"]["subs"][0])
+        return self.progs[key]
+
+    def proj_under(self, pid, tr):
+        """trace of the underlying function, projected like the closure's own trace"""
+        e = self.cat[pid]
+        p = e["p"]
+        ns = len(p["x"])
+        a = tr.get_args()
+        if p["n"] == 2:
+            extra = a[:len(a) - ns]
+        else:
+            extra = a[ns:]
+        return {"args": [gb.proj_val(x) for x in extra], "choices": gb.proj_chm(tr.get_choices(), e["addrs"]),
+                "score": gb.fx(tr.get_score()), "ret": gb.proj_val(tr.get_retval())}
+
     def cat_addrs(self, term):
         """address universe of a sub-program term (static structure only; mirrors Addrs of the spec for the
         shapes that occur as callees in the catalogue)."""
@@ -185,7 +205,7 @@ class Runner:
                   "pre": self.proj_trace(pid, tr) if tr is not None else T0, "post": T0, "w": 0,
                   "assess": {"status": "none", "score": 0, "ret": gb.NN}, "disc": [], "hasdisc": False,
                   "retdiff": [], "undo": {"status": "none", "post": T0, "w": 0},
-                  "alt": {"status": "none", "post": T0, "w": 0}, "alt2": {"status": "none", "post": T0, "w": 0}, "flagmode": "none",
+                  "alt": {"status": "none", "post": T0, "w": 0}, "alt2": {"status": "none", "post": T0, "w": 0}, "alt3": {"status": "none", "post": T0, "w": 0}, "altm": {"status": "none", "post": T0, "w": 0}, "flagmode": "none",
                   "subt": {"choices": [], "score": 0}, "w2": 0, "haspre": tr is not None, "extra": []}
             try:
                 newtr = self.step(ev, rq, e, p, tr, cur_argsV, k1, k2, k3)
@@ -208,6 +228,14 @@ class Runner:
         gf = self.prog(pid)
         op = rq["op"]
         cons = rq.get("cons", [])
+        clo = p["k"] == "closure"
+        if clo:
+            under = self.under(pid)
+            stored = tuple(gb.val_to_py(v) for v in p["x"])
+            ns = len(stored)
+
+            def full(a):          # the underlying function's arguments
+                return (tuple(a) + stored) if p["n"] == 2 else (stored + tuple(a))
         masked = any(c["f"] in ("T", "F") for c in cons)
         traced_flags = masked and (ev["tid"] % 2 == 1)
         struct = [[c["p"], c["f"] if not traced_flags else ("M" if c["f"] != "-" else "-")] for c in cons]
@@ -224,7 +252,10 @@ class Runner:
             if op == "simulate":
                 new = self.fn(_skey(pid, "sim"), lambda: (lambda k, a: gf.simulate(k, a)))(k1, args)
                 ev["post"] = self.proj_trace(pid, new)
-                if "alt" in self.want:
+                if clo and "alt" in self.want:
+                    n2 = self.fn(_skey(pid, "under-sim"), lambda: (lambda k, a: under.simulate(k, full(a))))(k1, args)
+                    ev["alt"] = {"status": "ok", "w": 0, "post": self.proj_under(pid, n2)}
+                elif "alt" in self.want:
                   ch, sc, rv = self.fn(_skey(pid, "propose"), lambda: (lambda k, a: gf.propose(k, a)))(k1, args)
                   ev["alt"] = {"status": "ok", "w": 0, "post": {"args": ev["post"]["args"], "choices": gb.proj_chm(ch, e["addrs"]),
                                                               "score": gb.fx(sc), "ret": gb.proj_val(rv)}}
@@ -235,7 +266,10 @@ class Runner:
                 if masked and "maskeq" in self.want:
                     n3, w3 = self.fn(_skey(pid, "imp", pstruct), lambda: (lambda k, v, fl, a: gf.importance(k, gb.build_cons(plain, v, fl), a)))(k1, pvals, None, args)
                     ev["alt2"] = {"status": "ok", "w": gb.fx(w3), "post": self.proj_trace(pid, n3)}
-                if "alt" in self.want:
+                if clo and "alt" in self.want:
+                    new2, w2 = self.fn(_skey(pid, "under-imp", struct), lambda: (lambda k, v, a: under.importance(k, gb.build_cons(cons, v), full(a))))(k1, vals, args)
+                    ev["alt"] = {"status": "ok", "w": gb.fx(w2), "post": self.proj_under(pid, new2)}
+                elif "alt" in self.want:
                     new2, w2 = self.fn(_skey(pid, "gen", struct), lambda: (lambda k, v, a: gf.generate(k, gb.build_cons(cons, v), a)))(k1, vals, args)
                     ev["alt"] = {"status": "ok", "w": gb.fx(w2), "post": self.proj_trace(pid, new2)}
             ev["assess"] = self.self_assess(pid, new)
@@ -268,6 +302,8 @@ class Runner:
             return None
         # ---- edits
         old_args = tr.get_args()
+        if clo:
+            old_args = gb.call_args(p, cur_argsV)          # the extra arguments the closure was called with
         argsV = e["as"][rq["a"] - 1] if rq.get("a", 0) > 0 and op != "index" else cur_argsV
         new_args = gb.call_args(p, argsV)
         changed = [not _eq(a, b) for a, b in zip(argsV, cur_argsV)]
@@ -288,6 +324,12 @@ class Runner:
         def mk_edit(rq_, ):
             def f(k, t, v, fl, i, a):
                 req = self.make_request(rq_, p, v, i, fl)
+                if clo:       # through the closure object (the request itself would reach the underlying function)
+                    if rq_["op"] == "update" and ev["tid"] % 2 == 0:
+                        t2, w_, rd_, disc_ = gf.update(k, t, req.constraint, self.argdiffs(a, tags))
+                        from genjax import Update as _U
+                        return t2, w_, rd_, _U(disc_)
+                    return gf.edit(k, t, req, self.argdiffs(a, tags))
                 return req.edit(k, t, self.argdiffs(a, tags))
             return f
 
@@ -307,8 +349,33 @@ class Runner:
         if isinstance(bwd, Update):
             ev["disc"] = gb.proj_chm(bwd.constraint, e["addrs"])
             ev["hasdisc"] = True
+        # C08: the same edit with every (unchanged) argument tagged UnknownChange instead of NoChange, same key
+        if "tagvar" in self.want and op in ("update", "regenerate") and "N" in tags:
+            tagsU = ["U"] * len(tags)
+            try:
+                def mk_editU():
+                    def f(k, t, v, fl, i, a):
+                        return self.make_request(rq, p, v, i, fl).edit(k, t, self.argdiffs(a, tagsU))
+                    return f
+                rkeyU = rkey[:-1] + [tagsU]
+                n4, w4, _, _ = self.fn(_skey(pid, "edit", rkeyU), mk_editU)(k1, tr, vals, flags, idx, new_args)
+                ev["alt3"] = {"status": "ok", "w": gb.fx(w4), "post": self.proj_trace(pid, n4)}
+            except Exception as ex:
+                ev["alt3"] = {"status": "raised:" + type(ex).__name__, "w": 0, "post": T0}
         # C38: the derived entry points with the same key
-        if op in ("update", "regenerate", "empty", "diffannotate") and "alt" in self.want:
+        if clo and "alt" in self.want and p["n"] != 0:
+            pass      # partial_apply / keyword closures own a different trace type: validated against the spec only
+        elif clo and "alt" in self.want:
+            try:      # the underlying function with the stored arguments prepended (tagged as the closure tags them)
+                ftags = (tags + ["U"] * ns) if p["n"] == 2 else (["U"] * ns + tags)
+
+                def mk_alt():
+                    return lambda k, t, v, fl, i, a: self.make_request(rq, p, v, i, fl).edit(k, t, self.argdiffs(full(a), ftags))
+                n2, w2, _, _ = self.fn(_skey(pid, "under-edit", rkey), mk_alt)(k1, tr, vals, flags, idx, new_args)
+                ev["alt"] = {"status": "ok", "w": gb.fx(w2), "post": self.proj_under(pid, n2)}
+            except Exception as ex:
+                ev["alt"] = {"status": "raised:" + type(ex).__name__, "w": 0, "post": T0}
+        elif op in ("update", "regenerate", "empty", "diffannotate") and "alt" in self.want:
             try:
                 if op == "update":
                     def mk_alt():
@@ -329,6 +396,8 @@ class Runner:
             bstruct = jax_tree_structure(bwd)
 
             def mk_undo():
+                if clo:
+                    return lambda k, t, b, a: gf.edit(k, t, b, self.argdiffs(a, utags))
                 return lambda k, t, b, a: b.edit(k, t, self.argdiffs(a, utags))
             if bstruct is None:      # request that cannot be flattened as a pytree: apply it un-jitted
                 u, uw, _, _ = mk_undo()(k2, new, bwd, old_args)
@@ -339,6 +408,109 @@ class Runner:
             ev["undo"] = {"status": ("rejected:" if type(ex).__name__ in ("NotSupportedEditRequest",) else "raised:") + type(ex).__name__,
                           "post": T0, "w": 0, "error": (str(ex) or "")[-200:]}
         return new
+
+
+def run_case_vmap(runner, tid, case, nb=3):
+    """C23: the first operation (simulate / importance) and the first update or regenerate of a history run under
+    jax.vmap over a batch of keys (and constraint values); slice i is logged as its own event together with the
+    unbatched call on the i-th inputs (field altm)."""
+    import jax
+    import jax.numpy as jnp
+    from genjax import Update
+    from genjax._src.core.generative.requests import Regenerate
+    self = runner
+    self.want = set()
+    pid = case["pid"]
+    e = self.cat[pid]
+    p = e["p"]
+    gf = self.prog(pid)
+    keys = jax.random.split(jax.random.key(int(case["key"])), nb)
+    rq0 = case["ops"][0]
+    argsV = e["as"][rq0["a"] - 1]
+    args = gb.call_args(p, argsV)
+    cons0 = rq0.get("cons", [])
+    vals0 = jnp.stack([jnp.array([(c["v"] + i) % 3 for c in cons0], dtype=jnp.int32) for i in range(nb)]) if cons0 else jnp.zeros((nb, 0), jnp.int32)
+
+    def blank(seq, op, i, rq):
+        cons = rq.get("cons", [])
+        return {"tid": 1000000 + tid * 8 + i, "seq": seq, "pid": pid, "mode": "vmap", "op": op, "status": "ok", "sub": "", "idx": 0,
+                "sel": rq.get("sel", NOSEL), "cons": [], "consall": cons, "tags": [], "reqargs": [], "pre": T0, "post": T0, "w": 0,
+                "assess": {"status": "none", "score": 0, "ret": gb.NN}, "disc": [], "hasdisc": False, "retdiff": [],
+                "undo": {"status": "none", "post": T0, "w": 0}, "alt": {"status": "none", "post": T0, "w": 0},
+                "alt2": {"status": "none", "post": T0, "w": 0}, "alt3": {"status": "none", "post": T0, "w": 0},
+                "altm": {"status": "none", "post": T0, "w": 0}, "flagmode": "none", "subt": {"choices": [], "score": 0},
+                "w2": 0, "haspre": False, "extra": []}
+
+    def sl(x, i):
+        return jax.tree_util.tree_map(lambda v: v[i], x)
+
+    events = []
+    if rq0["op"] == "simulate":
+        f0 = lambda k, v: (gf.simulate(k, args), jnp.zeros(()))
+    else:
+        f0 = lambda k, v: gf.importance(k, gb.build_cons(cons0, list(v)), args)
+    try:
+        btr, bw = jax.vmap(f0)(keys, vals0)
+    except Exception as ex:
+        ev = blank(0, rq0["op"], 0, rq0)
+        ev["status"] = "raised:" + type(ex).__name__
+        ev["reqargs"] = argsV
+        return [ev]
+    singles = []
+    for i in range(nb):
+        ev = blank(0, rq0["op"], i, rq0)
+        ev["reqargs"] = argsV
+        ev["cons"] = [[c["p"], int(vals0[i][j])] for j, c in enumerate(cons0) if c["f"] != "F"]
+        ev["post"] = self.proj_trace(pid, sl(btr, i))
+        ev["w"] = gb.fx(bw[i])
+        t1, w1 = f0(keys[i], vals0[i])
+        singles.append(t1)
+        ev["altm"] = {"status": "ok", "post": self.proj_trace(pid, t1), "w": gb.fx(w1)}
+        events.append(ev)
+    # first update / regenerate of the history, batched over keys and traces
+    rq1 = next((r for r in case["ops"][1:] if r["op"] in ("update", "regenerate")), None)
+    if rq1 is None:
+        return events
+    cons1 = rq1.get("cons", [])
+    vals1 = jnp.stack([jnp.array([(c["v"] + i) % 3 for c in cons1], dtype=jnp.int32) for i in range(nb)]) if cons1 else jnp.zeros((nb, 0), jnp.int32)
+    argsV1 = e["as"][rq1["a"] - 1] if rq1.get("a", 0) > 0 else argsV
+    new_args = gb.call_args(p, argsV1)
+    tags = ["U" if not _eq(a, b) else "N" for a, b in zip(argsV1, argsV)]
+    keys2 = jax.random.split(jax.random.key(int(case["key"]) + 1), nb)
+
+    def f1(k, t, v):
+        req = Update(gb.build_cons(cons1, list(v))) if rq1["op"] == "update" else Regenerate(gb.build_sel(rq1["sel"]))
+        n, w, _, _ = req.edit(k, t, self.argdiffs(new_args, tags))
+        return n, w
+    try:
+        bn, bw1 = jax.vmap(f1)(keys2, btr, vals1)
+    except Exception as ex:
+        ev = blank(1, rq1["op"], 0, rq1)
+        ev["status"] = ("rejected:" if type(ex).__name__ in REJECT else "raised:") + type(ex).__name__
+        ev["pre"] = events[0]["post"]
+        ev["haspre"] = True
+        ev["reqargs"] = argsV1
+        ev["tags"] = tags
+        # is the unbatched call rejected too?  (then the batched rejection carries no information)
+        try:
+            f1(keys2[0], sl(btr, 0), vals1[0])
+            ev["altm"] = {"status": "ok", "post": T0, "w": 0}
+        except Exception as ex2:
+            ev["altm"] = {"status": ("rejected:" if type(ex2).__name__ in REJECT else "raised:") + type(ex2).__name__, "post": T0, "w": 0}
+        return events + [ev]
+    for i in range(nb):
+        ev = blank(1, rq1["op"], i, rq1)
+        ev["pre"] = events[i]["post"]
+        ev["haspre"] = True
+        ev["reqargs"] = argsV1
+        ev["tags"] = tags
+        ev["cons"] = [[c["p"], int(vals1[i][j])] for j, c in enumerate(cons1) if c["f"] != "F"]
+        ev["post"] = self.proj_trace(pid, sl(bn, i))
+        ev["w"] = gb.fx(bw1[i])
+        n1, w1 = f1(keys2[i], sl(btr, i), vals1[i])
+        ev["altm"] = {"status": "ok", "post": self.proj_trace(pid, n1), "w": gb.fx(w1)}
+        events.append(ev)
+    return events
 
 
 def jax_tree_structure(x):
@@ -380,6 +552,9 @@ def run_cases(args):
         m = case.get("mode", mode)
         rr = r if m == mode else get_runner(len(catalog), catalog, m)
         try:
+            if m == "vmap":
+                out.extend(run_case_vmap(get_runner(len(catalog), catalog, "eager"), tid, case))
+                continue
             out.extend(rr.run_case(tid, case))
         except Exception as ex:
             out.append({"tid": tid, "seq": -1, "status": "driver-error:" + type(ex).__name__,
